@@ -189,6 +189,7 @@ func cmdCheck(args []string) int {
 	verbose := fs.Bool("v", false, "")
 	nocache := fs.Bool("nocache", false, "")
 	workers := fs.Int("j", 8, "parallel obligations")
+	outDir := fs.String("out", "", "directory for evidence/ and replays/ (default /verif)")
 	fs.Parse(args)
 	if *prop == "" {
 		fmt.Fprintln(os.Stderr, "need -prop")
@@ -196,6 +197,9 @@ func cmdCheck(args []string) int {
 	}
 	if *nocache || *tier == "thorough" {
 		useCache = false
+	}
+	if *outDir == "" {
+		*outDir = verifDir
 	}
 	start := time.Now()
 	seed := 0
@@ -266,7 +270,7 @@ func cmdCheck(args []string) int {
 	funcs := map[string]bool{}
 	seen := map[string]bool{}
 	exit := 0
-	os.MkdirAll(filepath.Join(verifDir, "replays"), 0o755)
+	os.MkdirAll(filepath.Join(*outDir, "replays"), 0o755)
 	for _, w := range work {
 		funcs[w.Func] = true
 		for a := range w.Ctx.assumptions {
@@ -323,7 +327,7 @@ func cmdCheck(args []string) int {
 			continue
 		}
 		// violation
-		replay := filepath.Join(verifDir, "replays", *prop+"-"+sanitizeFile(w.Full)+".json")
+		replay := filepath.Join(*outDir, "replays", *prop+"-"+sanitizeFile(w.Full)+".json")
 		rep := map[string]interface{}{"property": *prop, "obligation": w.Full, "clause": w.O.Clause, "where": w.O.Where, "answer": w.R.Answer, "solver": w.R.Solver, "solver_output": truncate(w.R.Output, 4000)}
 		suffix := " no-failing-input-found"
 		if w.R.Answer == "sat" {
@@ -411,9 +415,9 @@ func cmdCheck(args []string) int {
 		"wall_s":      time.Since(start).Seconds(),
 		"violations":  len(violations),
 	}
-	os.MkdirAll(filepath.Join(verifDir, "evidence"), 0o755)
+	os.MkdirAll(filepath.Join(*outDir, "evidence"), 0o755)
 	b, _ := json.MarshalIndent(ev, "", " ")
-	os.WriteFile(filepath.Join(verifDir, "evidence", *prop+".json"), b, 0o644)
+	os.WriteFile(filepath.Join(*outDir, "evidence", *prop+".json"), b, 0o644)
 	fmt.Printf("%s: %d/%d obligations discharged, %d covers, %d undecided, %d known findings, %.1fs\n", *prop, nDis, nObl, nCover, len(undecided), len(knownHit), time.Since(start).Seconds())
 	if exit == 0 && nDis < nObl {
 		// undecided obligations that were never claimed do not raise an alarm
